@@ -119,6 +119,21 @@ func (uh *UpstreamHost) Available() bool {
 	return !uh.Down() && !uh.Full()
 }
 
+// acquireConn counts one more connection to the upstream host unless the
+// host is full. Checking Full() and incrementing Conns in a single atomic
+// step keeps concurrent requests from exceeding MaxConns together.
+func (uh *UpstreamHost) acquireConn() bool {
+	for {
+		n := atomic.LoadInt64(&uh.Conns)
+		if uh.MaxConns > 0 && n >= uh.MaxConns {
+			return false
+		}
+		if atomic.CompareAndSwapInt64(&uh.Conns, n, n+1) {
+			return true
+		}
+	}
+}
+
 // ServeHTTP satisfies the httpserver.Handler interface.
 func (p Proxy) ServeHTTP(w http.ResponseWriter, r *http.Request) (int, error) {
 	// start by selecting most specific matching upstream config
@@ -263,8 +278,19 @@ func (p Proxy) ServeHTTP(w http.ResponseWriter, r *http.Request) (int, error) {
 		//   The call to proxy.ServeHTTP can theoretically panic.
 		//   To prevent host.Conns from getting out-of-sync we thus have to
 		//   make sure that it's _always_ correctly decremented afterwards.
+		//
+		//   Other requests may have filled the host since Select() saw it
+		//   available; in that case it is treated like having no host.
+		if !host.acquireConn() {
+			if backendErr == nil {
+				backendErr = errors.New("no hosts available upstream")
+			}
+			if !keepRetrying(backendErr) {
+				break
+			}
+			continue
+		}
 		func() {
-			atomic.AddInt64(&host.Conns, 1)
 			defer atomic.AddInt64(&host.Conns, -1)
 			backendErr = proxy.ServeHTTP(w, outreq, downHeaderUpdateFn)
 		}()
